@@ -122,6 +122,43 @@ def all_solutions(case, orc, algo, cap=200000):
     return sols
 
 
+# ----------------------------------------------------------------------------- call histories
+PRIOR_COSTS = [{"spe": 0, "dup": 1, "hgt": 1, "floss": 1, "sloss": 1}, {"spe": 0, "dup": 2, "hgt": 3, "floss": 1, "sloss": 2}]
+
+
+def prior_inputs(desc):
+    """The earlier calls of a 'call history' run: the same input under the default costs, then a sibling input (leaf syntenies rotated
+    among the leaves, leaf species rotated) under another cost vector of the coherent region."""
+    d2 = dict(desc)
+    leaves = sorted(desc["leafmap"])
+    rot = leaves[1:] + leaves[:1]
+    d2["leafmap"] = {l: desc["leafmap"][r] for l, r in zip(leaves, rot)}
+    if desc.get("leafsyn"):
+        d2["leafsyn"] = {l: desc["leafsyn"][r] for l, r in zip(leaves, rot)}
+        d2.pop("rootsyn", None)
+    return [(desc, PRIOR_COSTS[0]), (d2, PRIOR_COSTS[1])]
+
+
+def run_priors(desc, algo):
+    for d, c in prior_inputs(desc):
+        for pol in ("any", "all"):
+            try:
+                D.run_algo(algo, H.Case(d).build(c), pol)
+            except Exception:
+                pass    # a failing earlier call is reported by the ordinary sections, not here
+
+
+def _fresh_process(payload, timeout):
+    """Run checks.hist_proc in a fresh interpreter (clean module state of superrec2); returns the decoded JSON answer."""
+    import json
+    import subprocess
+    import sys
+    p = subprocess.run([sys.executable, "-m", "checks.hist_proc"], input=json.dumps(payload), capture_output=True, text=True, timeout=timeout)
+    if p.returncode != 0:
+        raise RuntimeError("hist_proc failed: " + p.stderr[-800:])
+    return json.loads(p.stdout.strip().splitlines()[-1])
+
+
 # ----------------------------------------------------------------------------- concrete re-check
 def concrete_failures(desc, algo, policy, costs, flags):
     case = H.Case(desc)
@@ -185,18 +222,26 @@ def concrete_failures(desc, algo, policy, costs, flags):
     return fails
 
 
-def violation(prop, kind, text, desc, algo, policy, costs_conc, mode, flags):
+def violation(prop, kind, text, desc, algo, policy, costs_conc, mode, flags, prior=False):
     data = {"desc": desc, "algo": algo, "policy": policy, "costs": H.cost_json(costs_conc), "expect": kind, "flags": sorted(flags)}
-    cf = concrete_failures(desc, algo, policy, costs_conc, flags)
+    if prior:
+        # the history (earlier calls, then this call with plain numbers) is replayed in a fresh interpreter
+        data["prior"] = True
+        cf = [tuple(x) for x in _fresh_process({"mode": "replay", "data": data}, 600)]
+        text = "after earlier calls in the same interpreter (same input at default costs; sibling input at other costs): " + text
+    else:
+        cf = concrete_failures(desc, algo, policy, costs_conc, flags)
     return {
         "kind": kind,
         "text": f"{algo}/{policy} [{mode}]: {text}; input {desc}; costs {H.cost_json(costs_conc)}; concrete re-run: {cf[:2]}",
-        "signature": {"kind": kind, "algo": algo, "policy": policy, "desc": desc, "costs": H.cost_json(costs_conc)},
+        "signature": {"kind": kind, "algo": algo, "policy": policy, "desc": desc, "costs": H.cost_json(costs_conc), **({"history": True} if prior else {})},
         "data": data, "confirmed": any(k == kind for k, _ in cf),
     }
 
 
 def replay(data):
+    if data.get("prior"):
+        run_priors(data["desc"], data["algo"])      # `vcheck replay` is itself a fresh interpreter
     fails = concrete_failures(data["desc"], data["algo"], data["policy"], H.cost_unjson(data["costs"]), set(data["flags"]))
     for k, t in fails:
         print(f"  reproduced: {k}: {t}")
@@ -204,11 +249,13 @@ def replay(data):
 
 
 # ----------------------------------------------------------------------------- symbolic exploration
-def explore(prop, desc, algo, policy, sym, fixed, flags, max_paths=20000, budget_s=600.0, coherent=True):
+def explore(prop, desc, algo, policy, sym, fixed, flags, max_paths=20000, budget_s=600.0, coherent=True, prior=False):
     """
     :param sym: list of symbolic cost names; fixed: dict of concrete values for the others
     :returns: result dict (paths, obligations, discharged, violations, ...)
     """
+    if prior:
+        run_priors(desc, algo)       # only ever reached inside checks.hist_proc (fresh interpreter)
     case = H.Case(desc)
     orc = oracle_for(case, algo)
     flags = set(flags)
@@ -230,7 +277,7 @@ def explore(prop, desc, algo, policy, sym, fixed, flags, max_paths=20000, budget
         if len(out["violations"]) >= 6:
             return
         cc = H.concrete_costs(costs, model if model is not None else ctx.model_values())
-        out["violations"].append(violation(prop, kind, text, desc, algo, policy, cc, mode, flags))
+        out["violations"].append(violation(prop, kind, text, desc, algo, policy, cc, mode, flags, prior))
 
     def ob(ok):
         out["obligations"] += 1
@@ -352,9 +399,19 @@ def generic_worker(item):
     tot = dict(paths=0, obligations=0, discharged=0, solver_queries=0, solver_s=0.0, forks=0, violations=[], sample=None)
     try:
         for run in item["runs"]:
+            if run.get("prior") and not item.get("_in_hist_proc"):
+                # call-history run: one fresh interpreter per run (earlier concrete calls, then the symbolic exploration)
+                sub = dict(item, runs=[run], _in_hist_proc=True)
+                r = _fresh_process({"mode": "explore", "item": sub}, item.get("budget_s", 600.0) + 120)
+                if r.get("status") == "inconclusive":
+                    raise Inconclusive(r.get("reason", "inconclusive in the fresh interpreter"))
+                if r.get("status") == "error":
+                    raise RuntimeError(r.get("error"))
+                merge(tot, r)
+                continue
             r = explore(item["prop"], item["desc"], run["algo"], run["policy"], run["sym"], H.cost_unjson(run.get("fixed", {})),
                         set(run["flags"]), item.get("max_paths", 20000), item.get("budget_s", 600.0),
-                        coherent=run.get("coherent", True))
+                        coherent=run.get("coherent", True), prior=bool(run.get("prior")))
             merge(tot, r)
     except Inconclusive as e:
         tot["status"] = "inconclusive"
@@ -424,6 +481,17 @@ def runs_for(algos, policies, flags, sym="full", inf_too=True, coherent=True):
             out.append({"algo": algo, "policy": pol, "sym": s1, "fixed": f1, "flags": sorted(flags), "coherent": coherent})
             if inf_too:
                 out.append({"algo": algo, "policy": pol, "sym": s2, "fixed": f2, "flags": sorted(flags), "coherent": coherent})
+    return out
+
+
+def history_runs(algos, flags, policies=("any",)):
+    """Runs of the call-history sections: five (four) symbolic costs, finite transfer cost, executed after earlier concrete calls
+    in a fresh interpreter (prior_inputs)."""
+    out = []
+    for algo in algos:
+        for pol in policies:
+            out.append({"algo": algo, "policy": pol, "sym": FULL5 if is_super(algo) else ["spe", "dup", "hgt", "floss"], "fixed": {},
+                        "flags": sorted(flags), "coherent": True, "prior": True})
     return out
 
 
